@@ -7,6 +7,7 @@
 import Z80.Lemmas.Pc
 import Z80.Lemmas.Bus
 import Z80.Lemmas.Word
+import Z80.Lemmas.Nest
 namespace Z80
 
 /-- every non-transfer instruction: PC := address + encoded length -/
@@ -107,6 +108,18 @@ theorem C03_call_ret (nn len l2 : UInt16) (a : Arch) (h0 : a.bus.writable (a.reg
     exact p4
   · show a.reg.sp - 2 + 2 = a.reg.sp
     apply UInt16.eq_of_toBitVec_eq; simp
+
+/-- call/return nesting of ANY depth n (2n <= 65,536 so that the stack does not wrap onto itself):
+    n CALLs, each executed where the previous one landed, then n RETs: SP is restored, no byte
+    outside the 2n stack bytes has changed, and control is back at the instruction after the first
+    CALL.  Hypothesis: the 2n bytes below SP are writable (inside memory, outside ROM). -/
+theorem C03_nest (l : List (UInt16 × UInt16)) (a : Arch) (hn : 2 * l.length ≤ 65536)
+    (hw : ∀ addr, inStack a.reg.sp l.length addr → a.bus.writable addr) :
+    let s := iter (exec .ret 1) l.length (calls a l)
+    s.reg.sp = a.reg.sp ∧ (∀ addr, ¬ inStack a.reg.sp l.length addr → s.bus.readByte addr = a.bus.readByte addr) ∧
+    (∀ nn len rest, l = (nn, len) :: rest → s.reg.pc = a.reg.pc + len) := by
+  obtain ⟨h1, h2, _, h4⟩ := nest l a hn hw
+  exact ⟨h1, h2, h4⟩
 
 /-- non-vacuity: CALL at 0xFFFE pushes 0x0001 (address arithmetic wraps) -/
 example :
